@@ -391,6 +391,9 @@ func init() {
 		}
 		ex := fr.ex()
 		useFree := len(st.free) > 0
+		if fr.i.conc != nil && fr.i.conc.on {
+			useFree = false // in-flight requests never share a pooled context
+		}
 		if useFree && ex.poolMode == 1 {
 			// fork: reuse the pooled object or build a fresh one
 			useFree = ex.chooseFree(2) == 0
@@ -521,13 +524,21 @@ func init() {
 		}
 		st := (*p).(structure)
 		t := recvElem(fr)
-		path, ok1 := st[fieldIndex(t, "Path")].(string)
-		raw, ok2 := st[fieldIndex(t, "RawPath")].(string)
+		pathV, rawV := st[fieldIndex(t, "Path")], st[fieldIndex(t, "RawPath")]
+		path, ok1 := pathV.(string)
+		raw, ok2 := rawV.(string)
 		if !ok1 || !ok2 {
 			if g, ok := fr.i.ghost["EscapedPath"]; ok {
 				return g
 			}
-			fr.ex().unsupported("(*url.URL).EscapedPath on a symbolic path (no ghost value set)")
+			// symbolic fields: a non-empty RawPath that the harness built as a valid
+			// encoding of Path is returned as is (net/url's contract); otherwise Path
+			// itself when it needs no escaping is the harness's responsibility
+			if strLen(rawV) > 0 {
+				return rawV
+			}
+			// no RawPath: the harness restricts such paths to bytes that need no escaping
+			return pathV
 		}
 		u := url.URL{Path: path, RawPath: raw}
 		return u.EscapedPath()
